@@ -22,7 +22,8 @@ MOTION = ["move", "rapid", "move_absolute", "rapid_absolute", "set_axis", "auto_
 INTERLOCK = ["tool_on", "tool_off", "power_on", "power_off", "coolant_on", "coolant_off", "tool_change",
              "halt", "pause", "stop", "wait", "emergency_halt", "set_tool_power"]
 MODAL = ["set_feed_rate", "set_bed_temperature", "set_hotend_temperature", "set_chamber_temperature",
-         "set_plane", "set_feed_mode", "set_extrusion_mode", "set_length_units"]
+         "set_plane", "set_feed_mode", "set_extrusion_mode", "set_length_units",
+         "set_time_units", "set_temperature_units", "set_direction", "set_resolution", "sleep", "set_fan_speed", "query", "comment"]
 
 CLAUSES = {
     "C01": ["C01_Pos", "C01_Mode"],
@@ -104,6 +105,9 @@ def mc_configs(pid, tier):
                                                [(0, 2)], [(1, 2)], cl, bnames=("feed-rate",))))
         out.append(("atomic-interlock", model_cfg(INTERLOCK + ["set_bed_temperature"], [1], [0], [1], [-1, 1, 3], 0,
                                                   [], [(1, 2)], cl, bnames=("tool-power", "bed-temperature"))))
+        out.append(("atomic-aux", model_cfg(["set_time_units", "set_direction", "set_resolution", "sleep", "set_fan_speed", "query",
+                                             "set_length_units", "tool_on", "halt"],
+                                            [1], [0], [1], [-1, 0, 1, 256], 0, [], [], cl)))
     elif pid == "C07":
         out.append(("mirror-tool", model_cfg(["tool_on", "tool_off", "power_on", "power_off", "coolant_on", "coolant_off",
                                               "set_tool_power", "tool_change", "move", "emergency_halt"],
@@ -113,6 +117,9 @@ def mc_configs(pid, tier):
         out.append(("mirror-modal2", model_cfg(["set_hotend_temperature", "set_chamber_temperature", "set_feed_mode",
                                                 "set_length_units", "probe", "set_axis", "set_distance_mode"],
                                                [1], [0, 1], [1], [1, 2], 0, [], [], cl)))
+        out.append(("mirror-aux", model_cfg(["set_time_units", "set_temperature_units", "set_direction", "set_resolution", "sleep",
+                                             "set_fan_speed", "query", "comment", "set_length_units", "move", "tool_on", "tool_off"],
+                                            [1], [0, 1], [1], [1, 2], 0, [], [], cl)))
     elif pid == "C20":
         acts = ["move", "rapid", "move_absolute", "rapid_absolute", "set_distance_mode", "ctx_enter", "ctx_exit",
                 "add_probe_hook", "remove_probe_hook", "set_axis"]
@@ -224,7 +231,10 @@ def rep_diff(model, real):
     for k in ("feed", "power", "toolnum", "bed", "hotend", "chamber"):
         if not _qeq(model[k], real[k]):
             out.append(k)
-    for k in ("rel", "srel", "tool", "coolact", "spin", "pmode", "coolant", "swap", "halt", "units", "plane", "fmode", "emode"):
+    if model["res"]["k"] != "scaled" and not _qeq(model["res"], real["res"]):     # "scaled": converted by a change of units, not tracked
+        out.append("res")
+    for k in ("rel", "srel", "tool", "coolact", "spin", "pmode", "coolant", "swap", "halt", "units", "plane", "fmode", "emode",
+              "tunits", "timeunits", "dir"):
         if model[k] != real[k]:
             out.append(k)
     for k in ("params", "sparams"):
